@@ -58,6 +58,8 @@ RULE = (
     "A case is one run: a generated logging configuration (1..3 logger "
     "sections + optional eventlog; level spellings over every documented "
     "name in three letter cases, numerals -2..52 and junk; propagate; 0..3 "
+    "<syslog> / <http-logger> / <email-notifier> sections with their own "
+    "options (12 % of the handler sections), "
     "logfile handlers over {STDOUT, STDERR, scratch file} x {plain, "
     "max-size+old-files, when+old-files[+interval], inconsistent subsets} x "
     "delay x encoding; formats built from tokens (known/unknown fields with "
@@ -89,7 +91,11 @@ REAL_STUB = {
              "callbacks, CPython reference counting", "the file system "
              "(scratch directory)"],
     "stub": ["time.time (simulated clock)", "sys.stdout / sys.stderr "
-             "(StringIO)", "garbage collector schedule (explicit)"],
+             "(StringIO)", "garbage collector schedule (explicit)",
+             "the network side of <syslog>, <http-logger>, <email-notifier>: "
+             "SysLogHandler.createSocket and the emit methods of the three "
+             "handler classes record the formatted record instead of sending "
+             "it"],
 }
 
 SCHEMA = """<schema>
